@@ -120,7 +120,9 @@ func main() {
 		parse(s)
 	}
 	for _, m := range []int64{0, 1, 9, 10, per - 1, per, per + 1, 10 * per, 123456789012, maxAmt - 1, maxAmt, maxAmt + 1,
-		-1, math.MinInt64, math.MaxInt64, 100000000000, 1000000010, 99999999, 100000001} {
+		-1, math.MinInt64, math.MaxInt64, 100000000000, 1000000010, 99999999, 100000001,
+		// out of range on the negative side, incl. whole-MASS multiples (a "round number" fast path must not skip the range test)
+		-per, -10 * per, -1024 * per, -maxAmt, -maxAmt - per, -per + 1, -per - 1, -(maxAmt + 1), 2 * maxAmt, maxAmt + per, math.MinInt64 + 1, math.MinInt64 / per * per} {
 		format(m)
 	}
 
@@ -216,6 +218,15 @@ func main() {
 			m = maxAmt - 5 + int64(r.Intn(11))
 		default:
 			m = int64(r.U64())
+		}
+		if i%16 == 3 {
+			// negative and beyond-the-supply amounts, whole-MASS multiples among them: must be refused, not formatted
+			m = -m
+			if i%32 == 3 {
+				m = m / per * per
+			}
+		} else if i%16 == 7 {
+			m = (maxAmt/per + 1 + int64(r.Intn(1000))) * per
 		}
 		format(m)
 	}
